@@ -185,9 +185,30 @@ func (r *c01Run) probeAll() {
 	for _, n := range r.names {
 		r.probe(n)
 	}
-	if r.mem {
-		r.t.Op([]string{"total"}, strconv.FormatUint(r.s.memCache.TotalBytes(), 10), strconv.Itoa(r.s.memCache.NumEntries()))
+}
+
+// acct is the memory-cache accounting as observed right after a call: TotalBytes / NumEntries reported by
+// the cache, and the bytes / number of the entries actually present (every name of the case is asked).
+func (r *c01Run) acct() []string {
+	if !r.mem {
+		return nil
 	}
+	var sum int64
+	cnt := 0
+	for _, n := range r.names {
+		if r.s.CheckInMemCache(n) {
+			cnt++
+			if fi, err := r.s.GetCacheFileStat(n); err == nil {
+				sum += fi.Size()
+			}
+		}
+	}
+	return []string{fmt.Sprintf("acct=%d/%d/%d/%d", r.s.memCache.TotalBytes(), r.s.memCache.NumEntries(), sum, cnt)}
+}
+
+// mop records a mutating operation: its result and the accounting observed right after it.
+func (r *c01Run) mop(toks []string, res string) {
+	r.t.Op(toks, append([]string{res}, r.acct()...)...)
 }
 
 // c01NameOK keeps names inside what the CAS file entry factory treats as a plain file name
@@ -204,7 +225,7 @@ func (r *c01Run) do(op []string) (mutating bool) {
 	switch {
 	case len(a) == 2 && a[0] == "createUpload" && c01NameOK(a[1]):
 		err := r.s.CreateUploadFile(a[1], 0)
-		r.t.Op(a, c01Class(err))
+		r.mop(a, c01Class(err))
 		return true
 	case len(a) == 4 && a[0] == "writeUpload" && c01NameOK(a[1]):
 		off, err1 := strconv.ParseInt(a[2], 10, 64)
@@ -220,7 +241,7 @@ func (r *c01Run) do(op []string) (mutating bool) {
 			}
 			w.Close()
 		}
-		r.t.Op(a, c01Class(err))
+		r.mop(a, c01Class(err))
 		return true
 	case (len(a) == 3 || len(a) == 4) && a[0] == "commit" && c01NameOK(a[1]) && c01NameOK(a[2]):
 		have := "-"
@@ -231,7 +252,7 @@ func (r *c01Run) do(op []string) (mutating bool) {
 			r.tblSha(b)
 		}
 		err := r.s.MoveUploadFileToCache(a[1], a[2])
-		r.t.Op([]string{"commit", a[1], a[2], have}, c01Class(err))
+		r.mop([]string{"commit", a[1], a[2], have}, c01Class(err))
 		return true
 	case len(a) == 3 && a[0] == "createCache" && c01NameOK(a[1]):
 		b, err := verifh.Unhex(a[2])
@@ -240,7 +261,7 @@ func (r *c01Run) do(op []string) (mutating bool) {
 		}
 		r.tblSha(b)
 		err = r.s.CreateCacheFile(a[1], bytes.NewReader(b))
-		r.t.Op(a, c01Class(err))
+		r.mop(a, c01Class(err))
 		return true
 	case len(a) == 5 && a[0] == "writeBlob" && c01NameOK(a[1]):
 		size, err1 := strconv.ParseUint(a[2], 10, 64)
@@ -275,7 +296,7 @@ func (r *c01Run) do(op []string) (mutating bool) {
 			}
 			return nil
 		}, pl)
-		r.t.Op(a, c01Class(err))
+		r.mop(a, c01Class(err))
 		return true
 	case len(a) == 3 && a[0] == "genMeta" && c01NameOK(a[1]):
 		// the composition used by metainfogen.Generator.Generate and blobserver.overwriteMetaInfo
@@ -301,21 +322,21 @@ func (r *c01Run) do(op []string) (mutating bool) {
 				}
 			}
 		}
-		r.t.Op(a, c01Class(err))
+		r.mop(a, c01Class(err))
 		return true
 	case len(a) == 1 && a[0] == "drain":
 		if !r.mem {
 			return false
 		}
 		r.s.drainNext()
-		r.t.Op(a, "ok")
+		r.mop(a, "ok")
 		return true
 	case len(a) == 1 && a[0] == "ttl":
 		if !r.mem {
 			return false
 		}
 		r.s.cleanupMemoryCacheExpiredEntries()
-		r.t.Op(a, "ok")
+		r.mop(a, "ok")
 		return true
 	case len(a) == 2 && a[0] == "tick":
 		dt, err := strconv.ParseInt(a[1], 10, 64)
@@ -327,7 +348,7 @@ func (r *c01Run) do(op []string) (mutating bool) {
 		return false
 	case len(a) == 2 && a[0] == "delete" && c01NameOK(a[1]):
 		err := r.s.DeleteCacheFile(a[1])
-		r.t.Op(a, c01Class(err))
+		r.mop(a, c01Class(err))
 		return true
 	case len(a) == 2 && a[0] == "probe" && c01NameOK(a[1]):
 		r.probe(a[1])
@@ -341,8 +362,6 @@ func (r *c01Run) do(op []string) (mutating bool) {
 			r.t.Op(a, verifh.List(names))
 		}
 		return false
-	case len(a) == 1 && a[0] == "total":
-		return false // emitted by probeAll
 	}
 	return false
 }
